@@ -382,6 +382,8 @@ def check(prog, run):
 
     check_default_resolver(prog, run)
     check_context_threading(prog, run, "V1")
+    from .. import valuetruth
+    valuetruth.check(prog, run, "N1", ["py_gql.execution", "py_gql.utilities.coerce_value", "py_gql.utilities.value_from_ast"], 20)
 
     # ---- H1 request isolation
     r = run.rule("H1", "no request-scoped state outlives a request: executor caches are instance attributes created in __init__, "
